@@ -433,8 +433,11 @@ class Fixture(object):
         def probe(ctr):
             if 'deliver' in ctr.actions:
                 fix.delivered.append(tuple(ctr.bundle_ident()))
-        self.agent._rx_chain.append(m['util'].ChainStep(order=25, name='verif probe', action=probe))
-        self.agent._rx_chain.sort()
+        # the probe goes in front of the first step of order >= 30 WITHOUT re-sorting the chain: the order in
+        # which the agent itself left its chain (Agent.__init__ sorts it) stays what is exercised
+        chain = self.agent._rx_chain
+        pos = next((i for i, s in enumerate(chain) if s.order >= 30), len(chain))
+        chain.insert(pos, m['util'].ChainStep(order=25, name='verif probe', action=probe))
         self.recv = self.agent._cl_recv_bundle_finish('t')
 
     def add_tx(self, pattern, mtu=None):
